@@ -44,7 +44,8 @@ type wk struct {
 	// controller side
 	earlyClosed, gateOpen bool
 	accepted              bool
-	preRun                bool // registered before Run/Start was called
+	regTick               uint64 // tick after the accepting BackgroundWorker call returned
+	preRun                bool   // registered before Run/Start was called
 }
 
 func newWk(name string, order int, hasOrder bool) *wk {
@@ -236,6 +237,7 @@ func (s *scen) register(w *wk) (err error, pan string, blocked bool) {
 		return nil, "", true
 	}
 	pan = s.reg.TakePanic()
+	w.regTick = tick()
 	s.c.Count("bgworker_calls", 1)
 	return err, pan, false
 }
@@ -268,16 +270,17 @@ func (s *scen) checkPre() {
 	s.checkRun()
 }
 
-// checkRun: Run may only have returned when every worker started before that
-// moment has returned (a worker started after Run returned is not Run's business).
+// checkRun: Run may only have returned when every worker the daemon started
+// before that moment (registered before Run, or accepted by a BackgroundWorker
+// call that returned before Run did) has returned.
 func (s *scen) checkRun() {
 	if !s.useRun || s.runner.Busy() {
 		return
 	}
 	rt := s.runTick.Load()
 	for _, w := range s.liveWorkers() {
-		if w.late || w.startTick.Load() > rt {
-			continue
+		if w.late || (!w.preRun && w.regTick > rt) {
+			continue // accepted after Run had returned: not Run's business
 		}
 		s.c.Count("evaluations", 1)
 		if w.preRun {
